@@ -58,3 +58,41 @@ Example c03_static_conditions_example :
   let s := parallel_init 8 (2 :: 2 :: 3 :: 4 :: 5 :: 8 :: 7 :: 8 :: nil) 1 3 in
   check_init s = true /\ forestb s = true /\ chainb s = true /\ postb s = true /\ mark_busy s 3 0 0 = (0 :: 1 :: 2 :: nil).
 Proof. vm_compute. repeat split; reflexivity. Qed.
+
+From SLU Require Import BusyGen BusyTie.
+
+(* The routine pxgstrf_mark_busy_descends AS THE C SOURCE HAS IT NOW (BusyGen.v: re-translated from SRC/pxgstrf_mark_busy_descends.c on
+   every run by tools/gen_trans.py) is the model: on the etree / panel types / panel sizes of any scheduler state s whose forest
+   climbs (forestb), for any supernode table xsup / supno, any array lbusy and bcol >= 0, it ends within n+1 units of fuel with
+     lbusy' = lbusy after `lbusy[k] := jcol` for every k of SchedBusy.mark_busy s jcol bcol fsup, in the model's order (mark_all),
+     *bcol  = the first column of the farthest busy supernode (bcol_out),
+   where fsup = xsup[supno[bcol-1]] (fsup_of) is the value the model leaves open.  BusyTie.mark_all_spec / mark_all_length read the
+   array equation entry by entry: exactly the listed columns are set to jcol, every other entry and the length are unchanged. *)
+Theorem c03_source_mark_busy_is_model : forall s jcol bcol xsup supno lbusy fuel,
+  forestb s = true -> jcol <= sn s -> 0 <= bcol -> 0 <= sz s bcol -> (Z.to_nat (sn s) < fuel)%nat ->
+  gen_pxgstrf_mark_busy_descends jcol (etree s) (ptype s) (psize s) xsup supno bcol lbusy fuel =
+  Some (mark_all jcol (mark_busy s jcol bcol (fsup_of xsup supno bcol)) lbusy, bcol_out s jcol bcol (fsup_of xsup supno bcol)).
+Proof. exact mark_busy_tie. Qed.
+Print Assumptions c03_source_mark_busy_is_model.
+
+(* c03_busy_columns_marked for the translated routine: whenever the scheduler hands panel j with bcol b to a worker, the translated
+   routine run on the worker's n-entry array lbusy (any contents; any supernode table) returns, and afterwards lbusy[c] = j for
+   every column c of every proper descendant panel x of j that is not DONE. *)
+Theorem c03_source_busy_columns_marked : forall s0 P g t cur s' j b xsup supno lbusy fuel x c,
+  reachable s0 P g -> 0 <= t < tlen (thr g) -> thr_get (thr g) t = (M_READY, cur) ->
+  sched (gs g) cur = (s', j, b) -> j <> c_EMPTY ->
+  forestb s0 = true -> chainb s0 = true -> postb s0 = true ->
+  lenZ lbusy = sn s' -> (Z.to_nat (sn s') < fuel)%nat ->
+  anc s' x j -> x <> j -> st s' x <> c_DONE -> x <= c < x + sz s' x ->
+  exists lbusy' bcol',
+    gen_pxgstrf_mark_busy_descends j (etree s') (ptype s') (psize s') xsup supno b lbusy fuel = Some (lbusy', bcol') /\
+    nthZ lbusy' c = j.
+Proof. exact source_busy_columns_marked. Qed.
+Print Assumptions c03_source_busy_columns_marked.
+
+(* the translated routine run on the example forest above: panel 3, bcol 0 (a relaxed supernode of 3 columns) *)
+Example c03_source_mark_busy_example :
+  let s := parallel_init 8 (2 :: 2 :: 3 :: 4 :: 5 :: 8 :: 7 :: 8 :: nil) 1 3 in
+  gen_pxgstrf_mark_busy_descends 3 (etree s) (ptype s) (psize s) nil nil 0 (repeat (-1) 8) 9 =
+  Some (3 :: 3 :: 3 :: -1 :: -1 :: -1 :: -1 :: -1 :: nil, 0).
+Proof. vm_compute. reflexivity. Qed.
